@@ -74,6 +74,15 @@ def iter_patterns(unit, alg, rng, arity=2):
     elif fam == 'random':
         for _ in range(unit.get('count', 100)):
             yield tuple(gen.random_pattern(rng, canon, d, cap) for _ in range(arity))
+    elif fam == 'fresh_vs_fixed':
+        # one long-lived operand pattern against many short-lived key tuples of equal length that are built at run time and dropped
+        # at once (their memory addresses get reused): results must depend on the keys, not on object identity
+        size = unit.get('size', 2)
+        fixed = tuple(rng.sample(list(canon), min(len(canon), size)))
+        for _ in range(unit.get('count', 100)):
+            fresh = tuple(list(rng.sample(list(canon), min(len(canon), size))))
+            yield (fresh, fixed) if rng.random() < 0.5 else (fixed, fresh)
+            del fresh
     elif fam == 'highgrade':
         # operands drawn from the top grades (d-2 .. d) plus an occasional low blade: exercises grade >= 4 arithmetic (mod-4 sign rules)
         top = [k for k in canon if gen.grade_of(k) >= max(0, d - 2)]
